@@ -156,6 +156,31 @@ func runC01Real(r *Run, seed int64, c c01Real) {
 		mine(int(need) + 1)
 		chain.Confirmable(tx.ID)
 		mine(int(need) + 1)
+	case "crash-in-pay-then-reorg-then-restart":
+		// the confirmation is reported and the taker starts paying; it is killed right at its payment call, the
+		// confirming blocks are reorganised away (the tx is unconfirmed again) and the taker is restarted: its record
+		// already holds the confirmed raw tx, but the depth clause holds for the chain as it is when it pays
+		fired := false
+		node.OnCrossing = func(k int64, op string) {
+			if op == "ln.rebalance" && !fired {
+				fired = true
+				node.CrashAt, node.CrashFlavor = k, "before"
+			}
+		}
+		mine(int(need))
+		waitUntil(2*time.Second, func() bool { w.Run(); return !node.Alive() })
+		if node.Alive() {
+			r.CountIn("real_watcher_notes", "crash-in-pay: payment call never reached")
+		}
+		node.CrashAt, node.OnCrossing = 0, nil
+		chain.Unconfirmable(tx.ID)
+		chain.Reorg(int(need)+1, 0, false)
+		if err := rn.start(false); err != nil {
+			r.Inconclusive("restart: " + err.Error())
+			return
+		}
+		settle()
+		mine(2)
 	case "reorg-twice-then-later":
 		reorgOut()
 		mine(1)
@@ -178,7 +203,7 @@ func runC01Real(r *Run, seed int64, c c01Real) {
 			continue
 		}
 		quiet := 60 * time.Millisecond
-		if !paid() && c.pattern != "reorg-then-never" {
+		if !paid() && c.pattern != "reorg-then-never" && c.pattern != "crash-in-pay-then-reorg-then-restart" {
 			quiet = 500 * time.Millisecond // the watcher may simply not have had its turn yet
 		}
 		if time.Since(quietSince) > quiet {
@@ -208,7 +233,7 @@ func c01RealCases() []c01Real {
 	var cases []c01Real
 	for _, cw := range [][2]string{{"btc", "rpc"}, {"btc", "lnd"}, {"lbtc", "rpc"}, {"lbtc", "electrum"}} {
 		for _, role := range []string{"out-sender", "in-receiver"} {
-			for _, p := range []string{"plain", "reorg-then-never", "reorg-then-later", "reorg-twice-then-later"} {
+			for _, p := range []string{"plain", "reorg-then-never", "reorg-then-later", "reorg-twice-then-later", "crash-in-pay-then-reorg-then-restart"} {
 				cases = append(cases, c01Real{cw[0], cw[1], role, p})
 			}
 		}
